@@ -87,6 +87,11 @@ class TemperedStrategy(EmceeStrategy):
                  walker_initial_pos=None, parallel='auto', stages=3,
                  stage_len=30, seed=None):
         self.nwalkers = nwalkers
+        self.nsamples = nsamples
+        self.min_pixels = min_pixels
+        self.npixels = npixels
+        self.stages = stages
+        self.stage_len = stage_len
         self.parallel = parallel
         self.seed = seed
         self.walker_initial_pos = walker_initial_pos
@@ -106,9 +111,8 @@ class TemperedStrategy(EmceeStrategy):
                           nsamples=nsamples,
                           npixels=int(round(npixels)),
                           parallel=self.parallel,
-                          seed=self.seed))
-        if self.seed is not None:
-            self.seed += 1
+                          seed=(None if self.seed is None else
+                                self.seed + len(self.stage_strategies))))
 
     def sample(self, model, data):
         start_time = time.time()
